@@ -169,6 +169,11 @@ def cases(draw):
         c = draw(callgraph.tailcall_cases())
         c["opts"] = VECS[draw(st.integers(6, len(VECS) - 1))]
         return c
+    if draw(st.integers(0, 3)) == 0:
+        # deep chains of real calls (3-5 levels, never inlined): "at any nesting depth"
+        c = draw(callgraph.chain_cases())
+        c["opts"] = VECS[draw(st.integers(0, 5))]
+        return c
     c = draw(callgraph.callgraph_cases())
     # vectors that keep functions out of line are drawn twice as often (deeper dynamic call stacks)
     c["opts"] = VECS[draw(st.sampled_from([0, 1, 1, 2, 3, 3, 4, 4, 5, 6, 7, 7, 8, 8, 9]))]
